@@ -16,7 +16,7 @@ theorem bytesLt_cons (a b : UInt8) (as bs : Bytes) :
     bytesLt (a :: as) (b :: bs) = true ↔ a.toNat < b.toNat ∨ (a.toNat = b.toNat ∧ bytesLt as bs = true) := by
   simp only [bytesLt, Bool.or_eq_true, Bool.and_eq_true, beq_iff_eq, u8_lt_iff, u8_eq_iff]
 
-theorem bytesLt_irrefl (a : Bytes) : bytesLt a a = false := by
+theorem bytesLtT_irrefl (a : Bytes) : bytesLt a a = false := by
   induction a with
   | nil => rfl
   | cons x xs ih =>
@@ -24,7 +24,7 @@ theorem bytesLt_irrefl (a : Bytes) : bytesLt a a = false := by
     | false => rfl
     | true => rw [bytesLt_cons] at h; rcases h with h | ⟨_, h⟩ <;> simp_all
 
-theorem bytesLt_asymm (a b : Bytes) (h : bytesLt a b = true) : bytesLt b a = false := by
+theorem bytesLtT_asymm (a b : Bytes) (h : bytesLt a b = true) : bytesLt b a = false := by
   induction a generalizing b with
   | nil => cases b <;> simp_all [bytesLt]
   | cons x xs ih =>
@@ -42,7 +42,7 @@ theorem bytesLt_asymm (a b : Bytes) (h : bytesLt a b = true) : bytesLt b a = fal
         · omega
         · have := ih ys h; simp_all
 
-theorem bytesLt_total (a b : Bytes) (h1 : bytesLt a b = false) (h2 : bytesLt b a = false) : a = b := by
+theorem bytesLtT_total (a b : Bytes) (h1 : bytesLt a b = false) (h2 : bytesLt b a = false) : a = b := by
   induction a generalizing b with
   | nil =>
     cases b with
@@ -69,7 +69,7 @@ theorem bytesLt_total (a b : Bytes) (h1 : bytesLt a b = false) (h2 : bytesLt b a
         | true => exact absurd (Or.inr ⟨rfl, h⟩) n2
       rw [ih ys t1 t2]
 
-theorem bytesLt_trans (a b c : Bytes) (h1 : bytesLt a b = true) (h2 : bytesLt b c = true) : bytesLt a c = true := by
+theorem bytesLtT_trans (a b c : Bytes) (h1 : bytesLt a b = true) (h2 : bytesLt b c = true) : bytesLt a c = true := by
   induction a generalizing b c with
   | nil =>
     cases c with
@@ -90,18 +90,18 @@ theorem bytesLt_trans (a b c : Bytes) (h1 : bytesLt a b = true) (h2 : bytesLt b 
         · right; exact ⟨by omega, ih ys zs h1 h2⟩
 
 /-- `a ≤ b` in the bytewise lexicographic order -/
-def bytesLe (a b : Bytes) : Prop := bytesLt b a = false
+def bytesLeT (a b : Bytes) : Prop := bytesLt b a = false
 
-theorem bytesLe_trans {a b c : Bytes} (h1 : bytesLe a b) (h2 : bytesLe b c) : bytesLe a c := by
-  unfold bytesLe at *
+theorem bytesLeT_trans {a b c : Bytes} (h1 : bytesLeT a b) (h2 : bytesLeT b c) : bytesLeT a c := by
+  unfold bytesLeT at *
   cases h : bytesLt c a with
   | false => rfl
   | true =>
     -- c < a ≤ b gives c < b, contradicting b ≤ c
     cases hab : bytesLt a b with
-    | true => have := bytesLt_trans c a b h hab; simp_all
+    | true => have := bytesLtT_trans c a b h hab; simp_all
     | false =>
-      have : a = b := bytesLt_total a b hab h1
+      have : a = b := bytesLtT_total a b hab h1
       subst this; simp_all
 
 theorem mem_insertSorted (x : Bytes) (l : List Bytes) : ∀ y, y ∈ insertSorted x l ↔ y = x ∨ y ∈ l := by
@@ -114,8 +114,8 @@ theorem mem_insertSorted (x : Bytes) (l : List Bytes) : ∀ y, y ∈ insertSorte
     · simp only [List.mem_cons, ih]; constructor <;> (intro h; rcases h with h | h | h <;> simp [h])
     · simp
 
-theorem insertSorted_pairwise (x : Bytes) (l : List Bytes) (h : l.Pairwise bytesLe) :
-    (insertSorted x l).Pairwise bytesLe := by
+theorem insertSorted_pairwise (x : Bytes) (l : List Bytes) (h : l.Pairwise bytesLeT) :
+    (insertSorted x l).Pairwise bytesLeT := by
   induction l with
   | nil => simp [insertSorted]
   | cons z zs ih =>
@@ -127,20 +127,20 @@ theorem insertSorted_pairwise (x : Bytes) (l : List Bytes) (h : l.Pairwise bytes
       refine ⟨?_, ih h.2⟩
       intro y hy
       rcases (mem_insertSorted x zs y).mp hy with rfl | hy
-      · exact bytesLt_asymm _ _ hzx
+      · exact bytesLtT_asymm _ _ hzx
       · exact h.1 y hy
     · rename_i hzx
-      have hxz : bytesLe x z := by simpa [bytesLe] using hzx
+      have hxz : bytesLeT x z := by simpa [bytesLeT] using hzx
       simp only [List.pairwise_cons, List.mem_cons]
       refine ⟨?_, h.1, h.2⟩
       intro y hy
       rcases hy with rfl | hy
       · exact hxz
-      · exact bytesLe_trans hxz (h.1 y hy)
+      · exact bytesLeT_trans hxz (h.1 y hy)
 
-theorem sortBytes_pairwise (l : List Bytes) : (sortBytes l).Pairwise bytesLe := by
+theorem sortBytesT_pairwise (l : List Bytes) : (sortBytesT l).Pairwise bytesLeT := by
   induction l with
-  | nil => simp [sortBytes]
+  | nil => simp [sortBytesT]
   | cons x xs ih => exact insertSorted_pairwise x _ ih
 
 theorem insertSorted_perm (x : Bytes) (l : List Bytes) : (insertSorted x l).Perm (x :: l) := by
@@ -152,16 +152,16 @@ theorem insertSorted_perm (x : Bytes) (l : List Bytes) : (insertSorted x l).Perm
     · exact (List.Perm.cons z ih).trans (List.Perm.swap x z zs)
     · exact List.Perm.refl _
 
-theorem sortBytes_perm (l : List Bytes) : (sortBytes l).Perm l := by
+theorem sortBytesT_perm (l : List Bytes) : (sortBytesT l).Perm l := by
   induction l with
-  | nil => simp [sortBytes]
+  | nil => simp [sortBytesT]
   | cons x xs ih => exact (insertSorted_perm x _).trans (List.Perm.cons x ih)
 
-theorem sortBytes_eq_of_perm {a b : List Bytes} (h : a.Perm b) : sortBytes a = sortBytes b := by
-  apply List.Perm.eq_of_pairwise (le := bytesLe)
-  · intro x y _ _ h1 h2; exact bytesLt_total x y h2 h1
-  · exact sortBytes_pairwise a
-  · exact sortBytes_pairwise b
-  · exact (sortBytes_perm a).trans (h.trans (sortBytes_perm b).symm)
+theorem sortBytesT_eq_of_perm {a b : List Bytes} (h : a.Perm b) : sortBytesT a = sortBytesT b := by
+  apply List.Perm.eq_of_pairwise (le := bytesLeT)
+  · intro x y _ _ h1 h2; exact bytesLtT_total x y h2 h1
+  · exact sortBytesT_pairwise a
+  · exact sortBytesT_pairwise b
+  · exact (sortBytesT_perm a).trans (h.trans (sortBytesT_perm b).symm)
 
 end Grog
